@@ -191,10 +191,10 @@ def check_add_intermediate(ck):
             # the loop leaves with steps = n+1: the candidate positions along the segment are the multiples of 1/(n+1) in [0, 1] (the property asks for "on the segment")
             onseg = z3.Or([z3.And([iso.t.d[k].v == A.t.d[k].v + z3.Q(j, n + 1) * (B.t.d[k].v - A.t.d[k].v) for k in range(3)]) for j in range(0, n + 2)])
             ck.decide(label + f'[{n} added] pose {i} lies on the straight segment start -> end', eng, ctx, z3.Not(onseg), case, nomodel_case=case)
-            sl = [r for r in rec['slerp'] if r['res'] is iso.R or same(r['res'], iso.R)]
-            oks = len(sl) == 1 and same(sl[0]['a'], A.R) and same(sl[0]['b'], B.R)
-            ck.decide(label + f'[{n} added] orientation {i} = slerp(start, end, .)', eng, ctx, z3.BoolVal(not oks), case, nomodel_case=case)
-            if oks: ck.decide(label + f'[{n} added] slerp fraction {i} within [0, 1]', eng, ctx, z3.Or(sl[0]['t'].v < 0, sl[0]['t'].v > 1), case, nomodel_case=case)
+            # semantic form (the pose may be a merge of several paths): the orientation equals the result of SOME slerp(start, end, t) call with t in [0, 1]
+            cands = [r for r in rec['slerp'] if same(r['a'], A.R) and same(r['b'], B.R)]
+            hit = z3.Or([z3.And(*[x_.v == y_.v for x_, y_ in zip(iso.R.d, r['res'].d)], r['t'].v >= 0, r['t'].v <= 1) for r in cands]) if cands else z3.BoolVal(False)
+            ck.decide(label + f'[{n} added] orientation {i} = slerp(start, end, t), t in [0, 1]', eng, ctx, z3.Not(hit), case, nomodel_case=case)
             ck.decide(label + f'[{n} added] pose {i} is finite when the inputs are', eng, ctx + [z3.Not(zb(b_or(*[x.poison() for x in A.t.d + B.t.d])))], z3.Or([zb(x.poison()) for x in iso.t.d]), case, nomodel_case=case)
     ck.decide(label + 'vacuity: 0, 1 and 2 added poses are all reachable', eng, [], z3.BoolVal(not {0, 1, 2} <= seen), case, nomodel_case=case)
     for ob in eng.obligations:
